@@ -340,7 +340,9 @@ func randomLine(r *rand.Rand) *Line {
 		case x < 76:
 			segs = append(segs, lit(randFrom(r, []rune{'a', '{', '}', '\n', ' ', '/', '*', '\u00e9', '\u00a0', '\t'}, 1, 8)))
 		case x < 88:
-			segs = append(segs, bcom("/* "+randFrom(r, []rune{'a', ' ', '\n', '{', '}', '/', '\u00e9'}, 0, 8)+" */"))
+			// content may hold '*' and '/' but neither "*/" nor a leading '*'
+			c := strings.ReplaceAll(randFrom(r, []rune{'a', ' ', '\n', '{', '}', '/', '*', '*', '\u00e9'}, 0, 8), "*/", "*a/")
+			segs = append(segs, bcom("/* "+c+" */"))
 		default:
 			// a line comment needs whitespace before it
 			switch {
